@@ -169,12 +169,11 @@ static void d_call(int kind, int pf, int nblk)
    log_state(SE); js_close();
 }
 
-static void d_check(void)
+/* check_control_input() in a child process: a build with assertions answers an illegal structure with celt_assert(0).
+   Returns the function's value, or -999 when the child was killed by the assertion */
+static int ck_fork(const silk_EncControlStruct *cc)
 {
-   /* a build with assertions answers an illegal structure with celt_assert(0): the predicate is evaluated in a child
-      process; ret = the return value, or -999 when the child was killed by the assertion */
-   silk_EncControlStruct c = CT; int cin[NCT], ret = -998, status = 0; pid_t pid;
-   ctl_vec(&c, cin);
+   silk_EncControlStruct c = *cc; int ret = -998, status = 0; pid_t pid;
    fflush(stdout);
    pid = fork();
    if (pid == 0) { int r; signal(SIGABRT, SIG_DFL); fclose(stderr); r = check_control_input(&c); _exit(r == 0 ? 0 : (-r) - 100); }
@@ -182,7 +181,13 @@ static void d_check(void)
       if (WIFEXITED(status)) { int x = WEXITSTATUS(status); ret = x == 0 ? 0 : -(x + 100); }
       else if (WIFSIGNALED(status)) ret = -999;
    }
-   js_open("ck"); js_arr_i("cin", cin, NCT); js_int("ret", ret); js_close();
+   return ret;
+}
+static void d_check(void)
+{
+   int cin[NCT];
+   ctl_vec(&CT, cin);
+   js_open("ck"); js_arr_i("cin", cin, NCT); js_int("ret", ck_fork(&CT)); js_close();
 }
 
 static void run_direct(char *line, int lineno)
@@ -218,7 +223,7 @@ static void run_direct(char *line, int lineno)
       else {
          /* silk_Encode is only ever called with a control structure check_control_input() accepts and an input length it accepts
             (an illegal one ends in celt_assert(0)); the legality predicate itself is exercised through `k' */
-         silk_EncControlStruct c = CT; int legal = check_control_input(&c) == 0 && (c.API_sampleRate % 8000) == 0 && c.bitRate > 0 && c.bitRate <= 500000;
+         silk_EncControlStruct c = CT; int legal = ck_fork(&c) == 0 && (c.API_sampleRate % 8000) == 0 && c.bitRate > 0 && c.bitRate <= 500000;
          if (!legal || d_maxbits() < 0 || d_maxbits() > 80000) continue;
          if (tok[0] == 'c' && tok[1]) { int n = atoi(tok + 2), i; if (n < 1) n = 1; if (n > 3000) n = 3000; if (d_open) continue; for (i = 0; i < n; i++) d_call(tok[1], 0, CT.payloadSize_ms / 10); }
          else if (tok[0] == 'h' && tok[1]) { if (CT.payloadSize_ms == 20) d_call(tok[1], 0, 1); }
